@@ -1,0 +1,152 @@
+// Copyright The gittuf Authors
+// SPDX-License-Identifier: Apache-2.0
+
+//go:build verif
+
+// gvc contracts (comment-only, read under the "verif" build tag).
+
+package luasandbox
+
+//@ # ---- ghost model of the gopher-lua state (assumed contracts on the library, A-lua) ----
+//@ # gNil[n]: global n of the state is nil (the primitive it named is unreachable through that global)
+//@ ghost gNil smt:(Array Str Bool)
+//@ ghost gVal smt:(Array Str Ifc)
+//@ # fNil[t][k]: field k of library table t is nil; meta[t]: metatable of t; fStr[t][k]: string value of field k
+//@ ghost fNil smt:(Array Int (Array Str Bool))
+//@ ghost fSet smt:(Array Int (Array Str Bool))
+//@ ghost fStr smt:(Array Int (Array Str Str))
+//@ ghost meta smt:(Array Int Int)
+//@ # deadline (seconds) of the context installed in the state; 0 = none
+//@ ghost ctxSeconds int
+//@ # value on top of the Lua stack
+//@ ghost stackTop smt:Ifc
+//@ spec ctxTimeoutSeconds(c context.Context) int
+
+//@ axiom lnilType: typeIs(lua.LNil, *lua.LNilType)
+
+//@ func ext:(*github.com/yuin/gopher-lua.LState).SetGlobal
+//@   trusted
+//@   assigns ghost gNil, ghost gVal
+//@   ensures gNil == upd(old(gNil), name, value == lua.LNil) && gVal == upd(old(gVal), name, value)
+
+//@ func ext:(*github.com/yuin/gopher-lua.LState).GetGlobal -> (r)
+//@   trusted
+//@   pure
+//@   ensures r == gVal[name] && (gNil[name] <==> r == lua.LNil)
+//@   ensures typeIs(r, *lua.LTable) ==> as(r, *lua.LTable) != nil
+
+//@ func ext:(*github.com/yuin/gopher-lua.LTable).RawSetString
+//@   trusted
+//@   assigns ghost fNil, ghost fSet, ghost fStr
+//@   ensures fNil == upd(old(fNil), tb, upd(old(fNil)[tb], key, value == lua.LNil)) && fSet == upd(old(fSet), tb, upd(old(fSet)[tb], key, value != lua.LNil))
+//@   ensures !typeIs(value, lua.LString) ==> fStr == old(fStr)
+
+//@ func ext:(*github.com/yuin/gopher-lua.LState).SetField
+//@   trusted
+//@   assigns ghost fNil, ghost fSet, ghost fStr
+//@   ensures typeIs(obj, *lua.LTable) ==> fSet == upd(old(fSet), as(obj, *lua.LTable), upd(old(fSet)[as(obj, *lua.LTable)], key, value != lua.LNil))
+//@   ensures typeIs(obj, *lua.LTable) ==> fNil == upd(old(fNil), as(obj, *lua.LTable), upd(old(fNil)[as(obj, *lua.LTable)], key, value == lua.LNil))
+//@   ensures typeIs(obj, *lua.LTable) && typeIs(value, lua.LString) ==> fStr == upd(old(fStr), as(obj, *lua.LTable), upd(old(fStr)[as(obj, *lua.LTable)], key, string(as(value, lua.LString))))
+//@   ensures typeIs(obj, *lua.LTable) && !typeIs(value, lua.LString) ==> fStr == old(fStr)
+
+//@ func ext:(*github.com/yuin/gopher-lua.LState).NewTable -> (t)
+//@   trusted
+//@   ensures t != nil && fresh(t)
+
+//@ func ext:(*github.com/yuin/gopher-lua.LState).SetMetatable
+//@   trusted
+//@   assigns ghost meta
+//@   ensures typeIs(obj, *lua.LTable) && typeIs(mt, *lua.LTable) ==> meta == upd(old(meta), as(obj, *lua.LTable), as(mt, *lua.LTable))
+
+//@ func ext:(*github.com/yuin/gopher-lua.LState).NewFunction -> (f)
+//@   trusted
+//@   pure
+//@   ensures f != nil
+
+//@ # loading a library / running a chunk may set any global and any table field (it is Lua code)
+//@ func ext:(*github.com/yuin/gopher-lua.LState).CallByParam -> (err)
+//@   trusted
+//@   assigns ghost gNil, ghost gVal, ghost fNil, ghost fSet, ghost fStr, ghost meta
+
+//@ # A-lua: running Lua source cannot make a global that was nil-ed name a forbidden primitive again (scripts can
+//@ # only bind values they can already reach); metatables of protected tables cannot be replaced.
+//@ func ext:(*github.com/yuin/gopher-lua.LState).DoString -> (err)
+//@   trusted
+//@   assigns ghost gVal, ghost stackTop
+
+//@ func ext:(*github.com/yuin/gopher-lua.LState).Get -> (r)
+//@   trusted
+//@   pure
+//@   ensures idx == -1 ==> r == stackTop
+
+//@ func ext:(*github.com/yuin/gopher-lua.LState).SetContext
+//@   trusted
+//@   assigns ghost ctxSeconds
+//@   ensures ctxSeconds == ctxTimeoutSeconds(ctx)
+
+//@ func ext:context.WithTimeout -> (c, cancel)
+//@   trusted
+//@   pure
+//@   ensures ctxTimeoutSeconds(c) == smt("(div %1 1000000000)", int, timeout) && c != nil
+
+//@ # forbidden globals, from the property statement: filesystem, processes, environment, code loading, metatables,
+//@ # raw access, debug, package, garbage collector, the global table itself
+//@ define forbiddenNil() bool = gNil["dofile"] && gNil["load"] && gNil["loadfile"] && gNil["loadstring"] && gNil["require"] && gNil["module"]
+//@ ..  && gNil["collectgarbage"] && gNil["rawget"] && gNil["rawset"] && gNil["rawequal"] && gNil["setmetatable"] && gNil["getmetatable"]
+//@ ..  && gNil["_G"] && gNil["os"] && gNil["io"] && gNil["debug"] && gNil["package"]
+//@ define protected(t *lua.LTable) bool = fSet[meta[t]]["__newindex"] && fStr[meta[t]]["__metatable"] == "protected"
+//@ define libTable(name string) *lua.LTable = as(gVal[name], *lua.LTable)
+//@ define libProtected(name string) bool = typeIs(gVal[name], *lua.LTable) ==> protected(libTable(name))
+
+//@ func [C20] (*LuaEnvironment).protectModule
+//@   requires l != nil && l.lState != nil && tbl != nil
+//@   assigns ghost fNil, ghost fSet, ghost fStr, ghost meta
+//@   ensures isProtected: protected(tbl)
+//@   ensures othersKept: forall t *lua.LTable :: t != tbl && t <= old(alloc()) && old(protected(t)) ==> protected(t)
+//@   ensures fieldsKept: forall t *lua.LTable :: t <= old(alloc()) ==> fNil[t] == old(fNil)[t]
+
+//@ func [C20] (*LuaEnvironment).enableOnlySafeFunctions
+//@   requires l != nil && l.lState != nil
+//@   assigns ghost gNil, ghost gVal, ghost fNil, ghost fSet, ghost fStr, ghost meta
+//@   ensures forbiddenGlobalsNil: forbiddenNil()
+//@   ensures stringRepDumpNil: typeIs(gVal["string"], *lua.LTable) ==> fNil[libTable("string")]["rep"] && fNil[libTable("string")]["dump"]
+//@   ensures randomseedNil: typeIs(gVal["math"], *lua.LTable) ==> fNil[libTable("math")]["randomseed"]
+//@   ensures stringProtected: libProtected("string")
+//@   ensures mathProtected: libProtected("math")
+//@   ensures coroutineProtected: libProtected("coroutine")
+//@   ensures tableProtected: libProtected("table")
+
+//@ func [C20] (*LuaEnvironment).setTimeOut
+//@   requires l != nil && l.lState != nil
+//@   assigns ghost ctxSeconds, l.contextCancel
+//@   ensures deadlineSet: ctxSeconds == timeOut
+
+//@ func [C20] (*LuaEnvironment).RunScript -> (code, err)
+//@   requires l != nil && l.lState != nil
+//@   assigns ghost gVal, ghost stackTop
+//@   ensures scriptErrorFails: err != nil ==> code == -1
+//@   ensures nonNumberFails: err == nil && !typeIs(stackTop, lua.LNumber) ==> code == 1
+
+//@ func [C20] (*LuaEnvironment).registerAPIFunctions -> (err)
+//@   requires l != nil && l.lState != nil
+//@   ensures keepsForbiddenNil: old(forbiddenNil()) ==> forbiddenNil()
+//@   ensures keepsDeadline: ctxSeconds == old(ctxSeconds)
+//@   ensures keepsLibraries: fNil == old(fNil) && fSet == old(fSet) && fStr == old(fStr) && meta == old(meta)
+//@   loop 1:
+//@     invariant keepsForbiddenNil: old(forbiddenNil()) ==> forbiddenNil()
+//@     invariant keeps: ctxSeconds == old(ctxSeconds) && fNil == old(fNil) && fSet == old(fSet) && fStr == old(fStr) && meta == old(meta)
+
+//@ func [C20] NewLuaEnvironment -> (env, err)
+//@   ensures sandboxed: err == nil ==> env != nil && forbiddenNil()
+//@   ensures stringRepDumpNil: err == nil && typeIs(gVal["string"], *lua.LTable) ==> fNil[libTable("string")]["rep"] && fNil[libTable("string")]["dump"]
+//@   ensures randomseedNil: err == nil && typeIs(gVal["math"], *lua.LTable) ==> fNil[libTable("math")]["randomseed"]
+//@   ensures librariesProtected: err == nil ==> libProtected("string") && libProtected("math") && libProtected("coroutine") && libProtected("table")
+//@   ensures deadlineSet: err == nil ==> ctxSeconds != 0 && (ctxSeconds == options.LuaTimeout || ctxSeconds == LuaTimeOut)
+//@   loop 1:
+//@     cut
+//@   loop 2:
+//@     cut
+
+//@ func ext:github.com/yuin/gopher-lua.NewState -> (s)
+//@   trusted
+//@   ensures s != nil && fresh(s)
